@@ -72,6 +72,7 @@ class LWorld:
         self.on_spawn: Any = None
         self.on_listen: Any = None
         self.perturb: Any = None  # callable(site) -> None, a scheduling point chosen by the check
+        self.usurped: list[dict[str, Any]] = []  # fs history: a worker unlinked another live worker's socket
 
     # ---- filesystem
     def norm(self, p: Any) -> str:
@@ -89,7 +90,13 @@ class LWorld:
         n = self.fs.get(self.norm(p))
         if n is None:
             raise FileNotFoundError(2, "No such file or directory (sim)", str(p))
-        return _Stat(n)
+        st = _Stat(n)
+        # a worker that has closed its listener is in serve_unix's cleanup: the gap between this lstat() and the
+        # unlink() that follows is a scheduling point of its own (the process may be descheduled there)
+        me = next((x for x in self.workers if x.pid == self.current_pid()), None)
+        if me is not None and me.sock is not None and me.sock.closed and self.perturb is not None:
+            self.perturb("exiting-lstat")
+        return st
 
     def unlink(self, p: Any) -> None:
         self.sched.op("fs.unlink")
@@ -100,7 +107,17 @@ class LWorld:
         if n.kind == "dir":
             raise IsADirectoryError(21, "Is a directory (sim)", str(p))
         del self.fs[k]
-        self.log.add("fs-unlink", k, n.kind, n.ino)
+        by = self.current_pid()
+        self.log.add("fs-unlink", k, n.kind, n.ino, "by", by)
+        # A worker process removing a socket inode that is not its own but the open listening socket of ANOTHER
+        # worker: its lstat()-then-unlink() pair was split by a launcher replacing the dead socket.
+        me = next((x for x in self.workers if x.pid == by), None)
+        if me is not None and n.kind == "sock" and n.sock is not None and n.sock.owner_pid != by \
+                and n.sock.listener is not None and not n.sock.listener.closed:
+            own = me.sock.ino if me.sock is not None else None
+            self.usurped.append({"seq": self.log.seq, "path": k, "ino": n.ino, "owner_pid": n.sock.owner_pid, "by_pid": by,
+                                 "by_own_ino": own})
+            self.ch.probe("exiting_worker_unlinked_successor_socket")
 
     def mkdir(self, p: Any, parents: bool, exist_ok: bool) -> None:
         k = self.norm(p)
